@@ -195,6 +195,7 @@ class World:
         self.dgrams = {}
         self.record_bytes = record_bytes
         self.steps = 0
+        self.tunq = {}
 
     # ---- low level
     def ev(self, **kw):
@@ -242,6 +243,8 @@ class World:
                 s = self.socks.get(int(e[2]))
                 if s:
                     s.buffered -= 1
+                    fr = self.tunq[s.fd].pop(0) if self.tunq.get(s.fd) else None
+                    self.ev(ev="TunRead", inst=inst.name, data=fr, n=int(e[3]))
             elif k == "rcv":
                 s = self.socks.get(int(e[2]))
                 if s:
@@ -397,6 +400,7 @@ class World:
             if inst.state != "dead" and inst.tunfd is not None:
                 self.k.cmd("tq %d %s" % (inst.tunfd, hx(frame)))
                 self.socks[inst.tunfd].buffered += 1
+                self.tunq.setdefault(inst.tunfd, []).append(frame)
                 self.ev(ev="TunOffer", inst=name, data=frame)
         elif kind == "call":
             payload(self)
